@@ -22,10 +22,10 @@ func (k fieldKey) String() string { return k.typ + "." + k.name }
 
 // memLoc is an abstract memory location of the (field-based, object-insensitive) heap model.
 type memLoc struct {
-	kind string      // "field", "fieldelems", "local", "typeelems"
-	key  fieldKey    // for field / fieldelems
-	v    ssa.Value   // for local (Alloc, Parameter, Global)
-	typ  string      // for typeelems: named slice/array type whose elements are tainted
+	kind string    // "field", "fieldelems", "local", "typeelems"
+	key  fieldKey  // for field / fieldelems
+	v    ssa.Value // for local (Alloc, Parameter, Global)
+	typ  string    // for typeelems: named slice/array type whose elements are tainted
 	ok   bool
 }
 
